@@ -140,6 +140,7 @@ pub fn gen_case(t: &mut Tape) -> Case {
 
 impl Prop for Scoping {
     type Case = Case;
+    crate::prog_shrink!();
     fn name(&self) -> String {
         "C11/scoping".into()
     }
